@@ -43,6 +43,10 @@ func c19Patch(r *rand.Rand, kind string) (text string, line int, cols []int, cha
 			default:
 				lines = append(lines, "# é multi-byte")
 			}
+			if r.Intn(4) == 0 {
+				// a pasted comment line with a CRLF line end: one more byte in front of everything that follows
+				lines[len(lines)-1] += "\r"
+			}
 		}
 		return n
 	}
